@@ -145,7 +145,9 @@ def run_case(work, idx, c):
         open(os.path.join(root, "elsewhere", "typeshare.toml"), "w").write(toml_text({s: "decoy" + s.replace("_", "") for s in SETTINGS}, with_tables=False))
     opts = []
     for s in SETTINGS:
-        if c["cli"][s]:
+        if c["cli"][s] == "<given-empty>":
+            opts += [OPT[s], ""]                      # the option is given, with an empty value (Config!GivenEmpty)
+        elif c["cli"][s]:
             opts += [OPT[s], concrete(s, c["cli"][s])]
     eff = c["effective"]
     for lang in ("swift", "kotlin", "scala", "go", "typescript"):
@@ -214,6 +216,7 @@ def run(chk):
         for d in ("cwd", "parent", "grandparent"):
             sl += [dict(c, disc=d) for c in flag[7::16]]
         sl += [c for c in cases if c["disc"] == "flag_over_cwd"][5::16]
+        sl += [c for c in cases if "<given-empty>" in c["cli"].values()][3::8]
         cases = sl
     chk.sample({"cell": {k: cases[len(cases) // 2][k] for k in ("cli", "file", "disc", "effective")}})
     work = common.scratch("c20")
